@@ -96,6 +96,17 @@ def run_variant(args):
                 out["detail"] = err or f"{und[0].rule}: {und[0].detail[:120]}"
             else:
                 out["status"] = "MISSED"
+                # a stored change whose effect lies outside what a static argument can decide (recorded with its reason in
+                # the change's meta.json and in DESIGN.md 9.4): reported, not counted as a defect of the checker
+                if variant.get("seed"):
+                    try:
+                        import json as _json
+                        why = _json.load(open(os.path.join(core.VERIF, "seeded", variant["seed"], "meta.json"))).get("static_out_of_reach")
+                    except Exception:
+                        why = None
+                    if why:
+                        out["status"] = "not-detected-out-of-reach"
+                        out["detail"] = why[:200]
         else:
             if viol:
                 out["status"] = "FALSE-ALARM"
